@@ -27,7 +27,9 @@ func genC09(rng *rand.Rand, c *Case) {
 	c.Cfg["withrsrc"] = rng.Intn(2)
 	c.Cfg["rsrcsize"] = rng.Intn(2000)
 	c.Cfg["namelen"] = []int{1, 8, 31, 120}[rng.Intn(4)]
-	c.Cfg["existing"] = rng.Intn(5) / 4
+	// 1: the name exists before the upload is requested; 2: it comes into existence between the request and the
+	// transfer (a second, earlier-requested upload of the same name completes first)
+	c.Cfg["existing"] = []int{0, 0, 0, 0, 1, 2}[rng.Intn(6)]
 	if c.Tier == "thorough" && rng.Intn(2) == 0 || rng.Intn(6) == 0 {
 		// exhaustive-offset sweep: a 3 KiB upload cut at stream offset (case index mod stream length)
 		c.Cfg["sweep"] = 1
@@ -76,6 +78,28 @@ func runC09(w *World) {
 			got, _ := os.ReadFile(final)
 			if !bytes.Equal(got, existingContent) {
 				w.Violate("c09-existing-file-overwritten", "an upload to an existing name changed the file (%d bytes now)", len(got))
+			}
+			return
+		}
+		if cfg["existing"] == 2 {
+			refA, _, repA, okA := c.UploadReq(path, name, uint32(len(data)), false)
+			other := GenData(int64(cfg["dataseed"])+11, max(1, len(data)/2))
+			refB, _, repB, okB := c.UploadReq(path, name, uint32(len(other)), false)
+			if !okA || !okB {
+				w.Violate("c09-upload-refused", "two upload requests for a free name: first ok=%v (%s), second ok=%v (%s)", okA, fieldStr(repA, rp.FError), okB, fieldStr(repB, rp.FError))
+				return
+			}
+			c.SendStream(UploadStream(refA, name, data, rsrc, withRsrc, ""), -1, 0)
+			Settle()
+			if got, _ := os.ReadFile(final); !bytes.Equal(got, data) {
+				w.Violate("c09-content-differs", "first of two requested uploads completed but the file has %d bytes, sent %d", len(got), len(data))
+				return
+			}
+			c.SendStream(UploadStream(refB, name, other, nil, false, ""), -1, 0)
+			Settle()
+			w.Probe("transfer_started_after_name_was_taken")
+			if got, _ := os.ReadFile(final); !bytes.Equal(got, data) {
+				w.Violate("c09-existing-file-overwritten", "an upload whose transfer started after the name had been taken changed the published file (%d bytes now, %d published)", len(got), len(data))
 			}
 			return
 		}
